@@ -627,3 +627,11 @@ def p14(ctx):
 
 
 RULES.append(p14)
+
+
+@rule("P15", doc="a union returns in assertion builds too: the assertions under `if CHECKS` on the union / rebuild path are the reviewed ones (C08.GA) — a post-condition that is stricter than the invariant (`slots(id) == cap` after a shrink, where the re-asserted symmetries may have shrunk the class further) panics inside a valid union, and no implied equality is ever reported")
+def p15(ctx):
+    C.ghost_census(ctx, ctx.lib())
+
+
+RULES.append(p15)
